@@ -29,7 +29,7 @@ def run(ctx):
         "images: every 5th (thorough: 3rd) operation of generated sequences incl. multi-block writes, truncations, renames over targets, restarts; end of concurrent 4-5 client "
         "histories; crash images of the namespace mix and of the build-then-free workload (770-block file freed by the shrinker, crash points from the free onwards); build-then-delete rounds on small disks",
         ["the image is produced by the harness (go/harness/fsck.go): a read-only walk of inode table, indirect blocks and directory blocks through obj.Log.Load, decoded by inode.Decode and dir.decodeDirEnt",
-         "the layout functions are the ones regenerated from super/super.go; the set of blocks marked by formatting is a closed form validated on the freshly formatted image of every run",
+         "the layout functions are the ones regenerated from super/super.go; the set of blocks marked by formatting is a closed form proved equal to the format model of C15 (metaBlock_is_format_model)",
          "in images of concurrent histories every directory counts as possibly moved once a cross-directory RENAME succeeded (loosens only the '..' clause there)"],
-        pending=["block-level operation model (bmap/Shrink/AddName on the image) with WF as an inductive invariant", "freshBlockBit = metaBlock as a theorem"],
+        pending=["block-level operation model (bmap/Shrink/AddName on the image) with WF as an inductive invariant"],
         partial=["for all histories / crash points: sampled, not proved"])
